@@ -5104,6 +5104,10 @@ class DfaCompileCtx:
             if len(transition.target.transitions) != 1 or DFTransition.Else not in transition.target.transitions[0].on_values:
                 continue
 
+            # an accepting state is observable (DONE is reported there), so it is never a dummy
+            if transition.target in self.dfa.accepting_states:
+                continue
+
             to_replace = transition.target.transitions[0]
 
             if not to_replace.is_fallthrough:
